@@ -14,6 +14,10 @@ type Block struct {
 	Var     string   `json:"var,omitempty"`   // loop counter / task write
 	Bound   int      `json:"bound,omitempty"` // loop iterations
 	Writes  []string `json:"writes,omitempty"`
+	// loop: TaskExit = the counting task itself decides with two conditional flows (no exclusive split behind
+	// it); ExitFirst = it lists the leaving flow before the one that goes round again
+	TaskExit  bool `json:"task_exit,omitempty"`
+	ExitFirst bool `json:"exit_first,omitempty"`
 }
 
 // Rand is the PRNG interface the generator needs.
@@ -129,6 +133,20 @@ func lower(g *Graph, b *Block, scope string) (entry, exit *Node, exitDefault boo
 		tl := g.Add(Task, "", scope)
 		tl.Writes = []string{b.Var}
 		link(g, x, d, tl)
+		if b.TaskExit {
+			// the task is requested once per iteration and takes one of its two conditional flows each time
+			xj := g.Add(Xor, "", scope)
+			back := &Cond{Kind: "var", Var: b.Var, Op: "<", Val: int64(b.Bound)}
+			out := &Cond{Kind: "var", Var: b.Var, Op: ">=", Val: int64(b.Bound)}
+			if b.ExitFirst {
+				g.Connect(tl, xj, out)
+				g.Connect(tl, xm, back)
+			} else {
+				g.Connect(tl, xm, back)
+				g.Connect(tl, xj, out)
+			}
+			return xm, xj, false
+		}
 		xs := g.Add(Xor, "", scope)
 		g.Connect(tl, xs, nil)
 		g.Connect(xs, xm, &Cond{Kind: "var", Var: b.Var, Op: "<", Val: int64(b.Bound)})
@@ -190,6 +208,9 @@ type Gen struct {
 	// conditional-flow task), so nothing reads the counter while the loop's task writes it.
 	LoopVar bool
 	loops   []string
+	// TaskLoops: loops are closed by conditional flows on the counting task itself (half of them listing the
+	// leaving flow first)
+	TaskLoops bool
 }
 
 // LoopVars lists the loop counters of a program.
@@ -354,6 +375,11 @@ func (gn *Gen) Block(kind string, depth int, terminalOK bool) *Block {
 		gn.nloop++
 		gn.Budget--
 		lb := &Block{Kind: "loop", Default: -1, Var: fmt.Sprintf("cnt%d", gn.nloop), Bound: 2 + gn.R.Intn(2)}
+		if gn.TaskLoops {
+			lb.TaskExit = true
+			lb.ExitFirst = gn.R.Bool()
+			lb.Bound = 2 + gn.R.Intn(3)
+		}
 		if gn.LoopVar {
 			gn.loops = append(gn.loops, lb.Var)
 		}
